@@ -58,6 +58,11 @@ const (
 // type: identifier | identifier '<' type '>'
 //
 func parseTerm(l *lexer, t token) (idempotent bool, typ termType, err error) {
+	if err = l.enter(); err != nil {
+		return false, termInvalid, err
+	}
+	defer l.leave()
+
 	switch t {
 	case tkInteger: // Integer lister
 		return true, termIntegerLiteral, nil
@@ -100,6 +105,24 @@ func parseTerm(l *lexer, t token) (idempotent bool, typ termType, err error) {
 	}
 
 	return false, termInvalid, errors.New("invalid term")
+}
+
+// maxNestingDepth limits how deeply terms and relations can be nested. They're parsed recursively, and without a limit
+// a query with millions of opening brackets overflows the stack, which is fatal for the whole process.
+const maxNestingDepth = 256
+
+// enter is called when starting to parse a (possibly nested) term or relation.
+func (l *lexer) enter() error {
+	if l.depth >= maxNestingDepth {
+		return errors.New("term or relation is nested too deeply")
+	}
+	l.depth++
+	return nil
+}
+
+// leave is called when done parsing a term or relation.
+func (l *lexer) leave() {
+	l.depth--
 }
 
 func parseListTerm(l *lexer) (idempotent bool, typ termType, err error) {
